@@ -1,6 +1,7 @@
 package props
 
 import (
+	"os"
 	"fmt"
 	"path/filepath"
 	"regexp"
@@ -24,6 +25,9 @@ type multiMember struct {
 	expectErr    bool              // the input contains an ungeneratable element: the run must return an error
 	outOf        map[string]string // schema file -> output file it must land in
 	pkgOf        map[string]string // output file -> package import path
+	// sameTypeKeys: every struct field bound to one of these JSON keys stands for ONE schema node (a property of a definition that
+	// is also merged into a composition): it has the same Go type wherever it appears
+	sameTypeKeys []string
 }
 
 func objSpec(ps ...*fam.Prop) *fam.Spec { return &fam.Spec{Kind: "object", Props: ps} }
@@ -164,6 +168,21 @@ func multiMembers() []multiMember {
 		out = append(out, multiMember{name: "an allOf branch in another file with a fragment-only reference into its own file", cfg: base,
 			files:  []*fam.FileSpec{{Name: "a.json", ID: "https://example.com/a", Root: objSpec(&fam.Prop{Label: "c", Spec: comp, Required: true})}, mkB()},
 			orders: [][]string{{"a.json"}, {"a.json", "b.json"}, {"b.json", "a.json"}},
+			outOf:  map[string]string{"a.json": "out.go", "b.json": "out.go"}, pkgOf: map[string]string{"out.go": "example.com/pkg/model"}})
+	}
+	// ... and the same with a RECURSIVE definition: b.json's Node refers to itself by fragment ("#/$defs/Node"), a.json composes it
+	// (allOf) and has a different definition of the same name. The merged struct's `next` is b.json's Node, not a.json's
+	{
+		node := objSpec(&fam.Prop{Label: "id", Spec: &fam.Spec{Kind: "string", Kw: []string{"minLength"}}, Required: true},
+			&fam.Prop{Label: "next", Concrete: "next", Spec: &fam.Spec{RefRootOf: "#/$defs/Node", Kind: "object"}})
+		node.Ref, node.RefFile, node.ConcreteDef = "$defs", "b.json", "Node"
+		own := objSpec(&fam.Prop{Label: "weight", Spec: &fam.Spec{Kind: "integer", Kw: []string{"maximum"}}, Required: true})
+		own.Ref, own.ConcreteDef = "$defs", "Node"
+		comp := &fam.Spec{Kind: "object", AllOf: []*fam.Spec{node, objSpec(&fam.Prop{Label: "extra", Spec: &fam.Spec{Kind: "integer"}})}}
+		out = append(out, multiMember{name: "an allOf branch in another file that is a recursive definition (fragment-only self reference)", cfg: base,
+			files: []*fam.FileSpec{{Name: "a.json", ID: "https://example.com/a", Root: objSpec(&fam.Prop{Label: "c", Spec: comp, Required: true}, &fam.Prop{Label: "mine", Spec: own})},
+				{Name: "b.json", ID: "https://example.com/b", Root: objSpec(&fam.Prop{Label: "k", Spec: &fam.Spec{Kind: "boolean"}})}},
+			orders: [][]string{{"a.json"}, {"a.json", "b.json"}}, sameTypeKeys: []string{"next"},
 			outOf:  map[string]string{"a.json": "out.go", "b.json": "out.go"}, pkgOf: map[string]string{"out.go": "example.com/pkg/model"}})
 	}
 	// a whole-file reference to a document that has NO root (definitions only): there is nothing to generate for it — the run must
@@ -311,10 +330,37 @@ func ruleMultiSel(c *core.Ctx, want map[string]bool, floor int, words ...string)
 				if w.Err == nil && w.GenErr == "" && mm.expectErr {
 					issues = append(issues, fam.Issue{Rule: "A-SILENT", Construct: "no error for an ungeneratable element in a referenced file", Msg: "the generator reports success although a definition of the referenced file cannot be generated: it was silently left out"})
 				}
+				if d := os.Getenv("VCHECK_DUMP"); d != "" && strings.Contains(mm.name, d) {
+					fmt.Printf("DUMP multi %s args=%v world %d err=%v generr=%q\n", mm.name, args, wi, w.Err, w.GenErr)
+					for n, fm := range w.Models {
+						fmt.Printf("---- %s\n%s\n", n, fm.F.R.Text)
+					}
+				}
 				if w.Err == nil && w.GenErr == "" && !mm.expectErr {
 					issues = append(issues, w.SynIssues()...)
 					issues = append(issues, w.TypeCheckAll(c.Prog.Repo, mm.pkgOf)...)
 					issues = append(issues, checkRouting(mm, w, args)...)
+					for _, k := range mm.sameTypeKeys {
+						seen := map[string]string{}
+						var names []string
+						for _, fm := range w.Models {
+							for sn, S := range fm.Structs {
+								for _, F := range S.Fields {
+									if strings.Split(F.Tags["json"], ",")[0] == k {
+										seen[sn] = F.Type
+										names = append(names, sn)
+									}
+								}
+							}
+						}
+						sort.Strings(names)
+						for _, sn := range names[1:] {
+							if seen[sn] != seen[names[0]] {
+								issues = append(issues, fam.Issue{Rule: "A-MAP", Construct: "one schema node typed differently in the definition and in a composition that merges it",
+									Msg: fmt.Sprintf("property %q is one node of the schema (a reference inside a definition that a composition of ANOTHER file merges), but %s.%s has type %s while %s has %s: the reference was resolved against the wrong document on its second visit", k, names[0], k, seen[names[0]], sn, seen[sn])})
+							}
+						}
+					}
 					// normalised outputs for the relational clauses
 					cur := map[string]string{}
 					for n, fm := range w.Models {
@@ -441,7 +487,7 @@ func reach(mm multiMember, n string, args []string) []string {
 			if s.RefFile != "" {
 				refs[fs.Name] = append(refs[fs.Name], s.RefFile)
 			}
-			if s.RefRootOf != "" {
+			if s.RefRootOf != "" && !strings.HasPrefix(s.RefRootOf, "#") {
 				refs[fs.Name] = append(refs[fs.Name], s.RefRootOf)
 			}
 			visit(s.Items)
